@@ -844,6 +844,8 @@ func (h cachedHistogram) ValueBucket(
 	)
 
 	return reportSamplesFunc(func(value int64) {
+		// n.b. Copy the metric, the bucket may be reported concurrently.
+		m := m
 		m.Value.Count = value
 		rep.reportCopyMetric(m, size, bucket, bucketID)
 	})
@@ -875,6 +877,8 @@ func (h cachedHistogram) DurationBucket(
 	)
 
 	return reportSamplesFunc(func(value int64) {
+		// n.b. Copy the metric, the bucket may be reported concurrently.
+		m := m
 		m.Value.Count = value
 		rep.reportCopyMetric(m, size, bucket, bucketID)
 	})
